@@ -94,4 +94,24 @@ theorem back_search_fuel (e : Env) (p : Int → Bool) (fuel : Nat) (c0 : Int) (h
 theorem fwd_search_fuel (e : Env) (fuel : Nat) (c0 : Int) (h : (e.upper - c0).toNat < fuel) :
     fwdToWork e fuel c0 = fwdToWork e (fuel + 1) c0 := fwdToWork_fuel_enough e fuel c0 h
 
+/-- the completion estimate of `_selectBestResources` (`while remaining > 0 and idx < size`) -/
+theorem estimate_fuel (e : Env) (σ : St) (r : Nat) (perSlot : Rat) (fuel : Nat) (cur : Int) (rem : Rat)
+    (h : (e.size - cur).toNat < fuel) :
+    estimateAux e σ r perSlot fuel cur rem = estimateAux e σ r perSlot (fuel + 1) cur rem :=
+  estimateAux_fuel_enough e σ r perSlot fuel cur rem h
+
+/-- **the ALAP marking** (`_markTaskALAP`, a depth-first walk with a processed set; the code has no fuel): every step
+    decreases `alapMeasure` (stack length + the cost of the unprocessed tasks), so fuel above it never matters … -/
+theorem alap_marking_fuel (e : Env) (fuel : Nat) (stack processed : List Nat) (σ : St)
+    (h : alapMeasure e stack processed < fuel) :
+    markAlap e fuel stack processed σ = markAlap e (fuel + 1) stack processed σ :=
+  markAlap_fuel_enough e fuel stack processed σ h
+
+/-- … and the `n² + n + 1` units `propagateAlap` hands out per anchor exceed it whenever no task lists more predecessors
+    than there are tasks (no repeated edges) -/
+theorem alap_marking_fuel_ample (e : Env) (hb : DepsBounded e) (a : Nat) (ha : a < e.tasks.size) (processed : List Nat)
+    (hp : processed.contains a = true) (preds : List Nat) (hpl : preds.length ≤ (e.taskD a).deps.length) :
+    alapMeasure e preds processed < e.tasks.size * e.tasks.size + e.tasks.size + 1 :=
+  markAlap_fuel_ample e hb a ha processed hp preds hpl
+
 end SP.C11
